@@ -5,3 +5,7 @@ package c09
 import "runtime"
 
 func runtimeStack(b []byte) int { return runtime.Stack(b, false) }
+
+type runtimeMemStats = runtime.MemStats
+
+func readMemStats(m *runtime.MemStats) { runtime.ReadMemStats(m) }
